@@ -69,14 +69,19 @@ func (rm *ResourceManagement) OnRequestDrop(APIStream publicTypes.APIStreamI) {
 		log.Debug().Msgf("Could not locate quota resource with ID %s", APIStream.GetID())
 		return
 	}
-	quotaObj, ok := outVal.(publicTypes.QuotaResourceI)
+	quotaObjs, ok := outVal.([]publicTypes.QuotaResourceI)
 	if !ok {
 		log.Debug().Msgf("Could not convert quota resource with ID %s", APIStream.GetID())
 		return
 	}
 
-	if err := (quotaObj).Dec(APIStream); err != nil {
-		log.Warn().Err(err).Msgf("Failed to decrement quota for request %s", APIStream.GetID())
+	// A transaction may have been counted by several quotas (every quota whose
+	// filter matches it, and every quota a processor asked for): each of them
+	// has to give back what it holds for the dropped transaction.
+	for _, quotaObj := range quotaObjs {
+		if err := quotaObj.Dec(APIStream); err != nil {
+			log.Warn().Err(err).Msgf("Failed to decrement quota for request %s", APIStream.GetID())
+		}
 	}
 }
 
@@ -98,15 +103,33 @@ func (rm *ResourceManagement) GetQuota(
 	}
 
 	if reqID != "" {
-		if !rm.reqIDToQuota.Exists(reqID) {
-			if err := rm.reqIDToQuota.Set(reqID, quotaObj); err != nil {
-				log.Debug().Err(err).
-					Msgf("Failed to set quota resource with ID %s for request %s", quotaID, reqID)
-			}
-		}
+		rm.rememberQuotaOfRequest(reqID, quotaID, quotaObj)
 	}
 
 	return quotaObj, nil
+}
+
+// rememberQuotaOfRequest records that the request was handed the quota, so
+// that OnRequestDrop can release it in every quota it went through.
+func (rm *ResourceManagement) rememberQuotaOfRequest(
+	reqID, quotaID string,
+	quotaObj publicTypes.QuotaResourceI,
+) {
+	quotaObjs := []publicTypes.QuotaResourceI{}
+	if known, err := rm.reqIDToQuota.Get(reqID); err == nil {
+		if knownObjs, ok := known.([]publicTypes.QuotaResourceI); ok {
+			for _, knownObj := range knownObjs {
+				if knownObj == quotaObj {
+					return
+				}
+			}
+			quotaObjs = append(quotaObjs, knownObjs...)
+		}
+	}
+	if err := rm.reqIDToQuota.Set(reqID, append(quotaObjs, quotaObj)); err != nil {
+		log.Debug().Err(err).
+			Msgf("Failed to set quota resource with ID %s for request %s", quotaID, reqID)
+	}
 }
 
 func (rm *ResourceManagement) UpdateQuota(
